@@ -75,6 +75,15 @@ impl RawEntry {
         self.namespace_sig = ns.sign(&m).to_bytes();
         self.author_sig = author.sign(&m).to_bytes();
     }
+    /// change the key a little (keeps the identifier well-formed)
+    pub fn key_tweak(&mut self) {
+        if self.id.len() > 64 {
+            let l = self.id.len() - 1;
+            self.id[l] ^= 1;
+        } else {
+            self.id.push(0x62);
+        }
+    }
     pub fn into_entry(&self) -> Result<SignedEntry, postcard::Error> {
         postcard::from_bytes(&self.to_bytes())
     }
